@@ -452,7 +452,7 @@ PDFDocEncoding = "".join(
         0x0013,
         0x0014,
         0x0015,
-        0x0017,
+        0x0016,
         0x0017,
         0x02D8,
         0x02C7,
